@@ -11,10 +11,13 @@ pub mod c11;
 pub mod c12;
 pub mod c13;
 pub mod c14;
+pub mod c15;
+pub mod c20;
+pub mod cli;
 pub mod repair;
 
 use crate::runner::Prop;
 
 pub fn all() -> Vec<&'static dyn Prop> {
-    vec![&c01::C01, &c03::C03, &c04::C04, &repair::C02, &repair::C05, &c06::C06, &c07::C07, &c08::C08, &c09::C09, &c10::C10, &c11::C11, &c12::C12, &c13::C13, &c14::C14]
+    vec![&c01::C01, &c03::C03, &c04::C04, &repair::C02, &repair::C05, &c06::C06, &c07::C07, &c08::C08, &c09::C09, &c10::C10, &c11::C11, &c12::C12, &c13::C13, &c14::C14, &c15::C15, &c20::C20, &cli::C16, &cli::C17]
 }
